@@ -359,7 +359,16 @@ fn run_one_inner(v: &Value, out: &mut Vec<String>) {
     if let Some((r, e, s)) = ids("uid") {
         assert_eq!(unsafe { libc::setresuid(r, e, s) }, 0);
     }
+    // "std_cloexec": the parent's own standard descriptors carry the close-on-exec flag (a file the program opened
+    // itself landed there after the original was closed)
+    let cx: Vec<i32> = v["std_cloexec"].as_array().map(|l| l.iter().map(|x| x.as_i64().unwrap() as i32).collect()).unwrap_or_default();
+    for fd in &cx {
+        unsafe { simk::raw::fcntl(*fd, libc::F_SETFD, libc::FD_CLOEXEC as i64) };
+    }
     run_one_body(v, out);
+    for fd in &cx {
+        unsafe { simk::raw::fcntl(*fd, libc::F_SETFD, 0) };
+    }
     if ids("uid").is_some() {
         assert_eq!(unsafe { libc::setresuid(0, 0, 0) }, 0);
     }
